@@ -13,6 +13,7 @@ import (
 	"html/template"
 	"strconv"
 	"strings"
+	"unicode"
 	"unicode/utf8"
 )
 
@@ -164,6 +165,98 @@ func selftestModels() int {
 				report("strings.TrimSpace", in, got, want)
 			}
 		}
+		// further strings models (strings_sym.go)
+		evalInt := func(p *pinned, v Val) string {
+			i := v.(Int)
+			if i.T != nil {
+				return strconv.FormatInt(int64(i.T.eval(func(name string, id int) uint64 { return p.vals[name] })), 10)
+			}
+			return strconv.FormatInt(i.signed(), 10)
+		}
+		evalBool := func(p *pinned, v Val) string {
+			b := v.(Bool)
+			if b.T != nil {
+				return strconv.FormatBool(b.T.eval(func(name string, id int) uint64 { return p.vals[name] }) != 0)
+			}
+			return strconv.FormatBool(b.C)
+		}
+		padded := " " + in + "\n "
+		type sc struct {
+			name string
+			got  func(p *pinned) (string, bool)
+			want string
+		}
+		scs := []sc{
+			{"strings.ContainsAny", func(p *pinned) (string, bool) {
+				return evalBool(p, models["strings.ContainsAny"](p.ex, []Val{p.sym(in), cstr("&<>\"\x00")})), true
+			}, strconv.FormatBool(strings.ContainsAny(in, "&<>\"\x00"))},
+			{"strings.IndexAny", func(p *pinned) (string, bool) {
+				return evalInt(p, models["strings.IndexAny"](p.ex, []Val{p.sym("ab" + in), cstr("'<\\")})), true
+			}, strconv.Itoa(strings.IndexAny("ab"+in, "'<\\"))},
+			{"strings.LastIndex", func(p *pinned) (string, bool) {
+				return evalInt(p, models["strings.LastIndex"](p.ex, []Val{p.sym(in + "<%" + in), cstr("<%")})), true
+			}, strconv.Itoa(strings.LastIndex(in+"<%"+in, "<%"))},
+			{"strings.Count", func(p *pinned) (string, bool) {
+				return evalInt(p, models["strings.Count"](p.ex, []Val{p.sym(in + "aa" + in + "a"), cstr("a")})), true
+			}, strconv.Itoa(strings.Count(in+"aa"+in+"a", "a"))},
+			{"strings.TrimLeft", func(p *pinned) (string, bool) {
+				return p.eval(models["strings.TrimLeft"](p.ex, []Val{p.sym(padded), cstr(" \n")}).(Str))
+			}, strings.TrimLeft(padded, " \n")},
+			{"strings.Trim", func(p *pinned) (string, bool) {
+				return p.eval(models["strings.Trim"](p.ex, []Val{p.sym(padded), cstr(" \n")}).(Str))
+			}, strings.Trim(padded, " \n")},
+			{"strings.TrimSuffix", func(p *pinned) (string, bool) {
+				return p.eval(models["strings.TrimSuffix"](p.ex, []Val{p.sym(in + "\n"), cstr("\n")}).(Str))
+			}, strings.TrimSuffix(in+"\n", "\n")},
+			{"strings.TrimPrefix", func(p *pinned) (string, bool) {
+				return p.eval(models["strings.TrimPrefix"](p.ex, []Val{p.sym(in + "x"), cstr("<")}).(Str))
+			}, strings.TrimPrefix(in+"x", "<")},
+		}
+		if ascii {
+			scs = append(scs,
+				sc{"strings.ToUpper", func(p *pinned) (string, bool) {
+					return p.eval(models["strings.ToUpper"](p.ex, []Val{p.sym("q" + in)}).(Str))
+				}, strings.ToUpper("q" + in)},
+				sc{"strings.ToLower", func(p *pinned) (string, bool) {
+					return p.eval(models["strings.ToLower"](p.ex, []Val{p.sym("Q" + in)}).(Str))
+				}, strings.ToLower("Q" + in)},
+				sc{"strings.EqualFold", func(p *pinned) (string, bool) {
+					return evalBool(p, models["strings.EqualFold"](p.ex, []Val{p.sym("a" + in), cstr("A" + strings.ToUpper(in))})), true
+				}, strconv.FormatBool(strings.EqualFold("a"+in, "A"+strings.ToUpper(in)))},
+				sc{"strings.Fields", func(p *pinned) (string, bool) {
+					var ss []string
+					for _, e := range models["strings.Fields"](p.ex, []Val{p.sym("a " + in + " b")}).(Slice).elems() {
+						x, _ := p.eval(e.(Str))
+						ss = append(ss, x)
+					}
+					return strings.Join(ss, "|"), true
+				}, strings.Join(strings.Fields("a "+in+" b"), "|")},
+			)
+			if len(in) == 1 {
+				r := rune(in[0])
+				for name, f := range map[string]func(rune) bool{"unicode.IsSpace": unicode.IsSpace, "unicode.IsDigit": unicode.IsDigit, "unicode.IsLetter": unicode.IsLetter, "unicode.IsUpper": unicode.IsUpper, "unicode.IsLower": unicode.IsLower, "unicode.IsPunct": unicode.IsPunct, "unicode.IsControl": unicode.IsControl, "unicode.IsPrint": unicode.IsPrint} {
+					name, f := name, f
+					scs = append(scs, sc{name, func(p *pinned) (string, bool) {
+						t := p.ex.freshVar("int", 32)
+						p.ex.assume(mkBool(mkEq(t, mkConst(uint64(r), 32))))
+						p.vals[t.Name] = uint64(r)
+						return evalBool(p, models[name](p.ex, []Val{Int{T: t, W: 32, S: true}})), true
+					}, strconv.FormatBool(f(r))})
+				}
+				scs = append(scs, sc{"unicode.ToUpper", func(p *pinned) (string, bool) {
+					t := p.ex.freshVar("int", 32)
+					p.ex.assume(mkBool(mkEq(t, mkConst(uint64(r), 32))))
+					p.vals[t.Name] = uint64(r)
+					return evalInt(p, models["unicode.ToUpper"](p.ex, []Val{Int{T: t, W: 32, S: true}})), true
+				}, strconv.Itoa(int(unicode.ToUpper(r)))})
+			}
+		}
+		for _, c := range scs {
+			got, ok := run(c.got)
+			if !ok || got != c.want {
+				report(c.name, in, got, c.want)
+			}
+		}
 		// JSON string encoder, both escaping modes
 		for _, esc := range []bool{true, false} {
 			esc := esc
@@ -248,7 +341,7 @@ func selftestModels() int {
 			report("strconv.Atoi", in, got, want)
 		}
 	}
-	fmt.Printf("selftest: %d inputs x {html, js, json string (both escaping modes), utf8, split, replace, trimspace} + 14 JSON container shapes + rune encoder + formatting + Atoi compared with the standard library, %d mismatches\n", checked, bad)
+	fmt.Printf("selftest: %d inputs x {html, js, json string (both escaping modes), utf8, split, replace, trimspace, ContainsAny, IndexAny, LastIndex, Count, Trim*, ToUpper/ToLower, EqualFold, Fields, unicode predicates} + 14 JSON container shapes + rune encoder + formatting + Atoi compared with the standard library, %d mismatches\n", checked, bad)
 	return bad
 }
 
